@@ -159,6 +159,44 @@ def rsa_signature_bytes_case():
                 {"signature": "0..6 symbolic bytes against a 4-byte key length"})
 
 
+def algorithm_name_case():
+    """a genuine signature whose algorithm name has been altered (another name, the certificate form of the name, a
+    prefix) is an altered signature: it verifies only under the key type's own signature algorithm name(s)"""
+    def fn(ctx):
+        import struct
+        import paramiko.message as PM
+        import paramiko.ed25519key as DK
+        import paramiko.ecdsakey as EK
+        which = ctx.choice("key-type", ["ed25519", "ecdsa-nistp256"])
+        own = "ssh-ed25519" if which == "ed25519" else "ecdsa-sha2-nistp256"
+        names = [own, own + "-cert-v01@openssh.com", own[:-1], own + "x", "ssh-rsa", "ecdsa-sha2-nistp384", "-cert-v01@openssh.com" + own,
+                 own.replace("-", "-cert-v01@openssh.com-", 1)]
+        name = ctx.choice("algorithm-name-in-the-blob", names)
+
+        def s_(b):
+            return struct.pack(">I", len(b)) + b
+        if which == "ed25519":
+            blob = s_(name.encode()) + s_(b"S" * 64)
+            k = DK.Ed25519Key.__new__(DK.Ed25519Key)
+            k._verifying_key = type("VK", (), {"verify": lambda self, data, sig: None})()      # the library accepts: the bytes are genuine
+            k._signing_key = None
+        else:
+            inner = s_(b"\x01") + s_(b"\x02")
+            blob = s_(name.encode()) + s_(inner)
+            k = EK.ECDSAKey.__new__(EK.ECDSAKey)
+            k.verifying_key = type("VK", (), {"verify": lambda self, sig, data, alg: None})()
+            k.ecdsa_curve = EK.ECDSAKey._ECDSA_CURVES.get_by_key_format_identifier("ecdsa-sha2-nistp256")
+        k.public_blob = None
+        try:
+            res = k.verify_ssh_sig(b"data", PM.Message(blob))
+        except Exception as e:      # noqa
+            ctx.prove(False, "raises:" + exc_key(e)[4:])
+            return
+        ctx.prove(res is (name == own), "verifies-only-under-the-key-type's-own-algorithm-name")
+    return Case("algorithm-name", fn, ["verifies-only-under-the-key-type's-own-algorithm-name"],
+                {"key types": ["ed25519", "ecdsa-nistp256"], "names": "own name, its certificate form, prefixes/suffixes, other algorithms"})
+
+
 def ecdsa_integers_case():
     """a well-formed ECDSA signature blob whose two integers are arbitrary mpints: what reaches the library is exactly
     the pair the blob encodes (RFC 4251 two's complement), and a negative integer is never turned into a valid one"""
@@ -263,4 +301,4 @@ def ed25519_case(maxlen):
 def cases(tier):
     _probe_contracts()
     k = 10 if tier == "quick" else 13         # 16 exhausts a 600 s budget in the ECDSA case (measured)
-    return [rsa_case(k + 4), ecdsa_case(k), ed25519_case(k), ecdsa_integers_case(), rsa_signature_bytes_case()]
+    return [rsa_case(k + 4), ecdsa_case(k), ed25519_case(k), ecdsa_integers_case(), rsa_signature_bytes_case(), algorithm_name_case()]
